@@ -558,7 +558,7 @@ func c16lru(p *Prog, r *Report) {
 	qPresent := func(l Lit) bool {
 		if lk, present, ok := lookupLit(l); ok && present {
 			fv, _ := fieldOf(lk.X)
-			return fv != nil && fv.Name() == "items"
+			return fv != nil && refName(fv) == "items"
 		}
 		// or via Get/Peek/Contains on the same cache
 		if l.Pos {
@@ -574,7 +574,7 @@ func c16lru(p *Prog, r *Report) {
 	for _, b := range fn.Blocks {
 		for _, in := range b.Instrs {
 			if st, ok := in.(*ssa.Store); ok && unwrap(st.Val) == val {
-				if fv, _ := fieldOf(st.Addr); fv != nil && fv.Name() == "value" {
+				if fv, _ := fieldOf(st.Addr); fv != nil && refName(fv) == "value" {
 					stores = append(stores, st)
 				}
 			}
